@@ -4,7 +4,7 @@ LEVEL = 'exploration'
 RULE = ('sequential: random sequence lengths 1-12 on the default and 0-4 conditions of one stub (Func, Struct.Method, Interface.Method, two-result func; Return+AndReturn and Returns forms), '
         'random interleaving of calls selecting different stubs, each checked against an exact per-stub cursor; concurrent (race build): 2-32 goroutines released by a spin barrier call '
         'one stub whose elements are unique per position, every operation recorded {client, call stamp, value, return stamp} from one atomic clock and checked offline by porcupine '
-        'against the monotone-cursor specification (partitioned by stub) and by a direct real-time-order check; race reports counted from GORACE log; '
+        'against the monotone-cursor specification (partitioned by stub) and by a direct real-time-order check; the same histories again with debug logging on; race reports counted from GORACE log; '
         'distinct = (mode, API form, goroutine bucket, number of stubs, max length) classes')
 
 
@@ -16,11 +16,15 @@ def run(ctx):
     br = ctx.build('c05race', core.MODPATH + '/zzverif/c05', files, race=True)
     nseq, nh, shards = ('300', '40', 4) if not ctx.thorough else ('2500', '320', 16)
     ctx.children(b, shards, run='TestC05Sequential', env={'VERIF_C05_SEQ': nseq}, timeout=1200)
+    pt = '4' if not ctx.thorough else '20'  # porcupine budget per history; a timeout is inconclusive for that history only
     racelog = os.path.join(ctx.scratch, 'race')
     ctx.children(br, shards, run='TestC05Concurrent', timeout=2400, parallel=4,
-                 env={'VERIF_C05_HIST': nh, 'GORACE': 'halt_on_error=0 log_path=%s' % racelog})
+                 env={'VERIF_C05_HIST': nh, 'VERIF_C05_PTIMEOUT': pt, 'GORACE': 'halt_on_error=0 log_path=%s' % racelog})
     # non-race build too: different timing, more overlap
-    ctx.children(b, shards, run='TestC05Concurrent', timeout=1200, parallel=4, env={'VERIF_C05_HIST': nh, 'VERIF_C05_MAXG': '64' if ctx.thorough else '32'})
+    ctx.children(b, shards, run='TestC05Concurrent', timeout=1200, parallel=4, env={'VERIF_C05_HIST': nh, 'VERIF_C05_PTIMEOUT': pt, 'VERIF_C05_MAXG': '64' if ctx.thorough else '32'})
+    # the same histories with debug logging on (calls go through goom's logging wrapper), race build
+    ctx.children(br, 2 if not ctx.thorough else 8, run='TestC05Concurrent', timeout=2400, parallel=4, what='TestC05Concurrent[debug logging]',
+                 env={'VERIF_C05_HIST': str(int(nh) // 2), 'VERIF_C05_PTIMEOUT': pt, 'VERIF_C05_DEBUG': '1', 'GORACE': 'halt_on_error=0 log_path=%s' % racelog})
     n, sigs = core.count_races(racelog + '.*')
     ctx.stats['race_reports'] = n
     for s in sigs[:5]:
